@@ -33,7 +33,7 @@ def files():
     # hand-written idiom files: constructs that the anchored code special-cases (sys.version_info comparisons,
     # sys.path / __all__ manipulation, typing, dataclasses, enum, namedtuple, functools, ...)
     for p in sorted((boot.VERIF / "vendor" / "idioms").glob("*.py")):
-        for _ in range(4):      # weight: four entries each
+        for _ in range(10):      # weight: ten entries each
             out.append(("idioms/" + p.name, p.read_text(encoding="utf-8")))
     return out
 
@@ -96,7 +96,7 @@ def token_bounds(text):
 
 
 NUMBER_FORMS = ["0", "1", "3.8", "0x3", "1e3", "3j", "0o7", "0b1", "1_000", "-1", "10**2", ".5", "1.", "0xFFFFFFFFFFFFFFFFFFFF"]
-MUTATORS = ["none", "num_swap", "prefix_char", "prefix_token", "del_line", "dup_line", "swap_lines", "del_token", "ins_token",
+MUTATORS = ["none", "num_swap", "num_swap", "num_swap", "prefix_char", "prefix_token", "del_line", "dup_line", "swap_lines", "del_token", "ins_token",
             "indent", "dedent", "crlf", "cr", "mixed_eol", "tabs", "formfeed", "continuation", "strip_final_nl",
             "unicode_ident", "bom", "soup_insert", "del_char", "ins_char"]
 
